@@ -93,6 +93,7 @@ func (p *Prog) inlineNewHelpers() {
 		}
 	}
 	p.Inlined = in.done
+	in.dissolve()
 	var names []string
 	for o := range in.decls {
 		names = append(names, qual(o))
@@ -1130,4 +1131,61 @@ func (in *inliner) expandPanicking(info *types.Info, call *ast.CallExpr, fd *ast
 		return nil
 	}
 	return append(append([]ast.Stmt{}, binds...), nestGuards(copied)...)
+}
+
+
+// dissolve removes from the trees the rules see every unexported helper (new since the pinned commit) that no longer has
+// a reference anywhere after inlining: its body now stands, with the caller's facts around it, in every host that used it.
+// Judging the free-standing copy as well would ask of it what only holds in context (callByValue without the `!fun.Lazy`
+// test that selected it). Helpers that are still called or taken as values somewhere stay.
+func (in *inliner) dissolve() {
+	p := in.p
+	if in.done == 0 {
+		return
+	}
+	for round := 0; round < 3; round++ {
+		refs := map[types.Object]int{}
+		for _, pk := range p.sortedMod() {
+			for _, f := range pk.Syntax {
+				for _, d := range f.Decls {
+					fd, isFn := d.(*ast.FuncDecl)
+					ast.Inspect(d, func(x ast.Node) bool {
+						if id, ok := x.(*ast.Ident); ok {
+							if o := pk.TypesInfo.Uses[id]; o != nil {
+								if _, isNew := in.decls[o]; isNew {
+									// a helper's reference to itself does not keep it alive
+									if !(isFn && pk.TypesInfo.Defs[fd.Name] == o) {
+										refs[o]++
+									}
+								}
+							}
+						}
+						return true
+					})
+				}
+			}
+		}
+		removed := 0
+		for _, pk := range p.sortedMod() {
+			for _, f := range pk.Syntax {
+				kept := f.Decls[:0:0]
+				for _, d := range f.Decls {
+					if fd, ok := d.(*ast.FuncDecl); ok {
+						o := pk.TypesInfo.Defs[fd.Name]
+						if _, isNew := in.decls[o]; isNew && o != nil && !o.Exported() && refs[o] == 0 {
+							removed++
+							p.Dissolved = append(p.Dissolved, qual(o))
+							continue
+						}
+					}
+					kept = append(kept, d)
+				}
+				f.Decls = kept
+			}
+		}
+		if removed == 0 {
+			break
+		}
+	}
+	sort.Strings(p.Dissolved)
 }
